@@ -27,10 +27,10 @@ type c15NetMsg struct {
 }
 
 func (m *c15NetMsg) TransportSenderID() net.TransportIdentifier { return nil }
-func (m *c15NetMsg) SenderPublicKey() []byte                     { return m.senderKey }
-func (m *c15NetMsg) Payload() interface{}                        { return m.payload }
-func (m *c15NetMsg) Type() string                                { return m.payload.Type() }
-func (m *c15NetMsg) Seqno() uint64                               { return m.seq }
+func (m *c15NetMsg) SenderPublicKey() []byte                    { return m.senderKey }
+func (m *c15NetMsg) Payload() interface{}                       { return m.payload }
+func (m *c15NetMsg) Type() string                               { return m.payload.Type() }
+func (m *c15NetMsg) Seqno() uint64                              { return m.seq }
 
 type c15Group struct {
 	size      int
